@@ -1,5 +1,5 @@
 #!/bin/bash
-# usage: tools/try_seed.sh <patch.diff> <property> [tier]
+# usage: [VPARGS="-workers 4 -harness name"] tools/try_seed.sh <patch.diff> <property> [tier]
 # Applies a seeded change to a scratch worktree of /repo (never /repo itself
 # while background runs are using it), runs the property's check against it
 # with evidence redirected, and restores the worktree.
@@ -9,7 +9,7 @@ wt=${SEED_WT:-/tmp/seedtest}
 git -C "$wt" checkout -q -- . && git -C "$wt" clean -qfd
 git -C "$wt" apply "$patch" || { echo "PATCH DOES NOT APPLY"; exit 3; }
 out=$(mktemp -d /tmp/seedout-XXXX)
-VERIF_REPO="$wt" VERIF_OUT="$out" /verif/bin/vpcheck -property "$prop" -tier "$tier" 2>&1 | grep -v "^\[" | sed 's/(native.*//' | sort | uniq -c | sort -rn | head -12
+VERIF_REPO="$wt" VERIF_OUT="$out" /verif/bin/vpcheck -property "$prop" -tier "$tier" ${VPARGS:-} 2>&1 | grep -v "^\[" | sed 's/(native.*//' | sort | uniq -c | sort -rn | head -12
 code=${PIPESTATUS[0]}
 git -C "$wt" checkout -q -- . && git -C "$wt" clean -qfd
 rm -rf "$out"
